@@ -286,6 +286,28 @@ def clause_b(ctx, idx, reg, res) -> None:
                                           "the result of connector.assign(...) is discarded: under JAX/TensorFlow assign is a pure function, so "
                                           "the update is lost with those connectors while NumPy updates in place", norm(c)[:90])
     ctx.require_floor("connector.assign call sites", n_assign, 40)
+    # functional updates `x.at[...].set/add/...(v)` return the updated array: the result must be used
+    n_at = 0
+    for m in idx.modules.values():
+        if not m.name.startswith("piquasso."):
+            continue
+        for st in ast.walk(m.tree):
+            for c in ([st.value] if isinstance(st, ast.Expr) and isinstance(st.value, ast.Call) else []):
+                pass
+        for c in ast.walk(m.tree):
+            if isinstance(c, ast.Call) and isinstance(c.func, ast.Attribute) and c.func.attr in ("set", "add", "multiply", "mul", "min", "max", "apply") \
+                    and isinstance(c.func.value, ast.Subscript) and isinstance(c.func.value.value, ast.Attribute) and c.func.value.value.attr == "at":
+                n_at += 1
+        for st in ast.walk(m.tree):
+            if isinstance(st, ast.Expr) and isinstance(st.value, ast.Call):
+                c = st.value
+                if isinstance(c.func, ast.Attribute) and isinstance(c.func.value, ast.Subscript) and isinstance(c.func.value.value, ast.Attribute) \
+                        and c.func.value.value.attr == "at":
+                    key = f"{m.name}|at-update-result-discarded|{norm(c.func.value.value.value)}"
+                    ctx.violation("C09b", key, m.path, c.lineno,
+                                  f"`{norm(c)[:70]}` is a functional update: it returns the updated array and leaves `{norm(c.func.value.value.value)}` "
+                                  f"unchanged, so discarding the result loses the update", norm(c)[:90])
+    ctx.require_floor("functional `.at[...]` updates", n_at, 10)
 
 
 # ================================================================================================ (c)
